@@ -512,14 +512,14 @@ def parse_mir(text):
             # duplicate names (ctor shims printed twice): keep the first
             bodies.setdefault(name, b)
             continue
-        m = re.match(r'^const (.*?): (.*) = \{$', line)
+        m = re.match(r'^const (.*?(?:promoted\[\d+\]|\{constant#\d+\})): (.*) = \{$', line) or re.match(r'^const (.*?): (.*) = \{$', line)
         if m:
             b = Body(m.group(1), line)
             b.ret_type = m.group(2)
             i = parse_body(lines, i + 1, b)
             bodies.setdefault(b.name, b)
             continue
-        m = re.match(r'^const (.*?): (.*) = const (.*);$', line)
+        m = re.match(r'^const (.*?(?:promoted\[\d+\]|\{constant#\d+\})): (.*) = const (.*);$', line) or re.match(r'^const (.*?): (.*) = const (.*);$', line)
         if m:
             b = Body(m.group(1), line)
             b.ret_type = m.group(2)
